@@ -18,7 +18,7 @@ STUBS = ['pathos ParallelPool -> SimPool', 'cli.common.signal -> FakeSignal (nev
 PROBES = ['corpus_case', 'step_cap_discarded', 'fault_entry', 'fault_mid_unit', 'fault_gather', 'multi_fault', 'all_units_of_tx', 'early_unit_of_rich_tx', 'every_unit',
           'threads_gt_1', 'fusion_unit_failed', 'circ_unit_failed', 'main_unit_failed', 'absorbed',
           'abort_checked', 'later_unit_after_failed_unit', 'parser_rows_case', 'natural_case',
-          'natural_unit_failed', 'natural_with_surviving_units']
+          'natural_unit_failed', 'natural_with_surviving_units', 'timeout_once_fired', 'timeout_once_absorbed_by_retry']
 RULE = ('case = generated or corpus reference + records (mix biased to fusions/circRNAs so transcripts have s'
         'everal units); fault plan = non-empty subset of processing units (main / fusion / circRNA / data gat'
         'hering), a quarter of the plans an early unit of a transcript with >= 3 units, each failing at entry'
@@ -308,6 +308,39 @@ def judge(case, f0, a, b, a2, faults):
     return out
 
 
+def judge_timeout_once(case, wd, f0, tfaults, threads, sched, out=None):
+    t = execute(case, wd, 't', threads, sched, False, faults=tfaults)
+    if out is not None:
+        out['executions'] += 1
+    if not t.fault_fired or t.wall_capped:
+        return []
+    if out is not None:
+        out['probes']['timeout_once_fired'] = out['probes'].get('timeout_once_fired', 0) + 1
+        out['faults']['variant:entry:TimeoutError:once'] = out['faults'].get('variant:entry:TimeoutError:once', 0) + 1
+    if not t.ok:
+        # (whether a single timeout must be survived is the retry ladder's business -- C02 -- not demanded here)
+        return []
+    if out is not None:
+        out['probes']['timeout_once_absorbed_by_retry'] = out['probes'].get('timeout_once_absorbed_by_retry', 0) + 1
+    tx = sorted(tfaults)[0].split('|')[1]
+    s0, st = set(f0.fasta), set(t.fasta)
+    must = set()
+    for key, peps in f0.unit_peptides.items():
+        if key.split('|')[1] != tx:
+            must.update(peps)
+    must &= s0
+    res = []
+    if not must <= st:
+        lost = sorted(must - st)
+        res.append(('sandwich', 'sandwich:lost-other-unit:timeout-retry',
+                    {'lost': lost[:5], 'n': len(lost), 'entries': {s: f0.fasta[s] for s in lost[:3]},
+                     'timed_out_once': sorted(tfaults)}))
+    if not st <= s0:
+        res.append(('sandwich', 'sandwich:invented:timeout-retry',
+                    {'invented': sorted(st - s0)[:5], 'n': len(st - s0), 'timed_out_once': sorted(tfaults)}))
+    return res
+
+
 def run_plan(case, wd, faults, threads, sched, with_abort=True):
     f0 = execute(case, wd, 'f0', 1, {'salt': sched.get('salt', 0)}, False, count_units=True)
     if not f0.ok:
@@ -398,6 +431,20 @@ def run_case(seed, task, tier):
                        'faults': faults, 'threads': threads, 'sched': sched}
                 rep['digest'] = R.digest([seed, idx, clause, faults])
                 out['violations'].append(rep)
+        # one-shot timeout without --skip-failed: the retry ladder of caller_reducer absorbs it (the transcript is called
+        # again with lowered limits and may legitimately yield less); every OTHER transcript's peptides must be there
+        trng = R.case_rng(seed, ENGINE, idx, 'timeout-once')
+        mains = [u for u in f0.units if u[0] == 'variant']
+        if mains:
+            u = trng.choice(mains[:max(1, len(mains) // 2)])
+            tfaults = {unit_key(u): {'k': 0, 'exc': 'TimeoutError', 'once': True}}
+            for clause, sig, detail in judge_timeout_once(case, wd, f0, tfaults, threads, sched, out):
+                rep = {'property': PROPERTY, 'engine': ENGINE, 'clause': clause, 'signature': sig,
+                       'detail': detail, 'seed': seed, 'case': idx, 'hclass': task['hclass'],
+                       'hashseed': driver.HASH_CLASSES[task['hclass']], 'case_data': case,
+                       'faults': tfaults, 'threads': threads, 'sched': sched, 'timeout_once': True}
+                rep['digest'] = R.digest([seed, idx, clause, tfaults])
+                out['violations'].append(rep)
         out['sample'] = {'case': idx, 'stats': case['stats'], 'config': case['config'],
                          'units': [(u[0], u[1], u[2], u[3]) for u in f0.units][:12],
                          'last_fault_plan': faults, 'threads': threads, 'sched': sched}
@@ -412,6 +459,13 @@ def replay(rep):
         with cvcase.Scratch('c07nr_') as wd:
             res, _ = judge_natural(case, wd, rep['threads'], rep['sched'])
         return [dict(rep, clause=c, signature=s, detail=d) for c, s, d in (res or [])]
+    if rep.get('timeout_once'):
+        with cvcase.Scratch('c07t_') as wd:
+            f0 = execute(case, wd, 'f0', 1, {'salt': rep['sched'].get('salt', 0)}, False, count_units=True)
+            if not f0.ok:
+                return []
+            res = judge_timeout_once(case, wd, f0, rep['faults'], rep['threads'], rep['sched'])
+        return [dict(rep, clause=c, signature=s, detail=d) for c, s, d in res]
     with cvcase.Scratch('c07r_') as wd:
         f0, a, b, a2, bad = run_plan(case, wd, rep['faults'], rep['threads'], rep['sched'])
         if bad is not None or a.fault_absorbed or not a.fault_fired:
